@@ -196,7 +196,7 @@ func ruleGateBeforeExecutor(c *Ctx, rid string) {
 		})
 	}
 	c.count("handler-call-sites", nh)
-	c.floor("handler-call-sites", 60)
+	c.floor("handler-call-sites", 45)
 	if nh > 0 {
 		c.ok(rid, "handler-calls-behind-gate", "", fmt.Sprintf("all %d handler-interface call sites are in executors or functions only they reach", nh))
 	}
@@ -805,7 +805,7 @@ func ruleNoSharedCapture(c *Ctx, rid string) {
 		})
 	}
 	c.count("executor-closures", len(cls))
-	c.floor("executor-closures", 60)
+	c.floor("executor-closures", 50)
 	if n == 0 {
 		c.ok(rid, "no-shared-captured-writes", "", fmt.Sprintf("%d closures examined; none stores into a variable captured from the registering function", len(cls)))
 	}
